@@ -676,8 +676,13 @@ impl Emit for ModuleFunctions {
             ));
         }
         cx.code_transform.function_ranges.sort_by_key(|i| i.0);
-        // FIXME: code section start in DWARF debug information expects 2 bytes before actual code section start.
-        cx.code_transform.code_section_start = code_section_start_offset - 2;
+        // Code addresses in DWARF are relative to the start of the code section's
+        // contents, i.e. the function count that precedes the first entry. Its LEB128
+        // encoding is one byte only for fewer than 128 functions.
+        let function_count = cx.code_transform.function_ranges.len() as u64;
+        let count_leb_len = leb128::write::unsigned(&mut Vec::new(), function_count)
+            .expect("writing to a Vec cannot fail");
+        cx.code_transform.code_section_start = code_section_start_offset - count_leb_len;
         cx.code_transform.instruction_map = instruction_map.into_iter().collect();
     }
 }
